@@ -220,3 +220,7 @@ Proof.
   assert (E : (L0 / eps * eps == L0)%Q) by (field; intros E0; rewrite E0 in He; apply (Qlt_irrefl 0 He)).
   rewrite E in Hlt. exact Hlt.
 Qed.
+
+Lemma greedy_stateless fixed o n order L0 L bags bags' fuel :
+  o_bag o = false -> greedy fixed o n order L0 L bags fuel = greedy fixed o n order L0 L bags' fuel.
+Proof. intros H. unfold greedy. apply loop_nobag; [exact H|right; reflexivity]. Qed.
